@@ -131,6 +131,79 @@ Example C02_handled_in_send_order_example :
   exists s os, krun [r0; r0] kinit ls = Some (s, os) /\ trace 2 ls os = [1; 2; 3; 4]%nat.
 Proof. eexists. eexists. split; vm_compute; reflexivity. Qed.
 
+(* Order across ADDRESS REUSE (an actor terminates, later a new actor is created under the same address): for every role
+   table, every run from the freshly started system and any two actor objects u1 < u2 (uid = creation index) that carry the
+   same address, EVERY serial u1 shows as handled is STRICTLY below EVERY serial u2 shows as handled. Strict "<" holds: the
+   copies of one broadcast go to different addresses and the counter is advanced before every send. (A message goes to the
+   object registered under the address at send time; once a second object of the address exists and is registered, the first
+   is unregistered for ever and receives nothing more; every send takes a number above everything that exists.) *)
+From MV Require Import Kernel.Reuse.
+Theorem C02_handled_in_send_order_across_address_reuse : forall roles ls s os u1 u2 a1 a2,
+  krun roles kinit ls = Some (s, os) ->
+  get s u1 = Some a1 -> get s u2 = Some a2 -> a_tok a1 = a_tok a2 -> (u1 < u2)%nat ->
+  forall x y, In x (trace u1 ls os) -> In y (trace u2 ls os) -> (x < y)%nat.
+Proof. exact handled_order_across_reuse. Qed.
+Print Assumptions C02_handled_in_send_order_across_address_reuse.
+
+(* ... the invariant behind it, in every reachable state: of two objects of one address, the later one is a ghost (created
+   while the address was occupied: registered under no address, holds nothing, has handled nothing), or the earlier one is
+   registered under no address and all it has handled or still holds is numbered below all the later one has handled or holds *)
+Theorem C02_same_address_objects_ordered : forall roles ls s os u1 u2 a1 a2,
+  krun roles kinit ls = Some (s, os) ->
+  get s u1 = Some a1 -> get s u2 = Some a2 -> a_tok a1 = a_tok a2 -> (u1 < u2)%nat ->
+  (unregA s u2 /\ serials (seq a2) = [] /\ trace u2 ls os = []) \/
+  (unregA s u1 /\ forall x y, In x (trace u1 ls os ++ serials (seq a1)) -> In y (trace u2 ls os ++ serials (seq a2)) -> (x < y)%nat).
+Proof. exact same_address_objects_ordered. Qed.
+Print Assumptions C02_same_address_objects_ordered.
+
+(* ... the registered object of an address is its newest object, ghosts apart: every object of that address with a larger uid
+   is registered nowhere, holds nothing and has handled nothing *)
+Theorem C02_registered_is_newest_but_ghosts : forall roles ls s os t u u' a',
+  krun roles kinit ls = Some (s, os) -> lookup t (registry s) = Some u ->
+  get s u' = Some a' -> a_tok a' = t -> (u < u')%nat ->
+  unregA s u' /\ serials (seq a') = [] /\ trace u' ls os = [].
+Proof. exact registered_is_newest_but_ghosts. Qed.
+Print Assumptions C02_registered_is_newest_but_ghosts.
+
+(* ... who can receive: in every reachable state and for every step, an object that is not the registered object of its
+   address has no user message appended to its mailbox (only its own run takes the head), and stays unregistered *)
+Theorem C02_unregistered_object_receives_nothing : forall roles ls s os l s1 o v a,
+  krun roles kinit ls = Some (s, os) -> kstep roles s l = Some (s1, o) ->
+  get s v = Some a -> lookup (a_tok a) (registry s) <> Some v ->
+  exists a1, get s1 v = Some a1 /\ lookup (a_tok a1) (registry s1) <> Some v /\
+    seq a1 = (if consumes l v a then tl (seq a) else seq a).
+Proof. exact unregistered_object_receives_nothing. Qed.
+Print Assumptions C02_unregistered_object_receives_nothing.
+
+(* ... the same from ANY state, for an object registered under no address *)
+Theorem C02_unregistered_receives_nothing_step : forall roles s l s1 o v a,
+  kstep roles s l = Some (s1, o) -> get s v = Some a -> unregA s v ->
+  exists a1, get s1 v = Some a1 /\ unregA s1 v /\ seq a1 = (if consumes l v a then tl (seq a) else seq a).
+Proof. exact unregistered_receives_nothing_step. Qed.
+Print Assumptions C02_unregistered_receives_nothing_step.
+
+Example C02_handled_in_send_order_across_address_reuse_example :
+  (* an actor is spawned under address 5 (object 2), launched, told 10, asked 11, handles both (serials 1 2), is terminated and
+     unregisters; a new actor is spawned under address 5 (object 3), launched, told 12 and 13, handles both (serials 3 4) *)
+  let ls := [LSpawn 5 1; LRun 2; LTell 5 10; LAsk 5 11; LRun 2; LRun 2; LTerm 5 false; LRun 2;
+             LSpawn 5 1; LRun 3; LTell 5 12; LTell 5 13; LRun 3; LRun 3] in
+  let r0 := {| victim := None; sup := []; rules := [] |} in
+  exists s os a1 a2, krun [r0; r0] kinit ls = Some (s, os) /\
+    get s 2 = Some a1 /\ get s 3 = Some a2 /\ a_tok a1 = 5 /\ a_tok a2 = 5 /\
+    a_st a1 = Terminated /\ a_st a2 = Alive /\ lookup 5 (registry s) = Some 3%nat /\
+    trace 2 ls os = [1; 2]%nat /\ trace 3 ls os = [3; 4]%nat.
+Proof. do 4 eexists. repeat (split; [vm_compute; reflexivity|]). vm_compute; reflexivity. Qed.
+
+Example C02_ghost_object_example :
+  (* a second spawn under the occupied address 5 creates object 3 with that address: never registered, never handles anything
+     (so "the registered object has the largest uid of its address" holds only with the ghosts set apart) *)
+  let ls := [LSpawn 5 1; LSpawn 5 1; LTell 5 10; LRun 2; LRun 2] in
+  let r0 := {| victim := None; sup := []; rules := [] |} in
+  exists s os a1 a2, krun [r0; r0] kinit ls = Some (s, os) /\
+    get s 2 = Some a1 /\ get s 3 = Some a2 /\ a_tok a1 = 5 /\ a_tok a2 = 5 /\
+    lookup 5 (registry s) = Some 2%nat /\ trace 2 ls os = [1]%nat /\ trace 3 ls os = [].
+Proof. do 4 eexists. repeat (split; [vm_compute; reflexivity|]). vm_compute; reflexivity. Qed.
+
 Example C02_kernel_example :
   (* a message to an address that never existed becomes exactly one dead letter *)
   exists s os, krun [] kinit [LTell 7%Z 1%Z; LRun 1%Z] = Some (s, os) /\ os = [[OS rGuard 7%Z 1%nat; OD rNone 7%Z 1%nat]; []].
